@@ -24,7 +24,7 @@ inductive AKind
   | u1 | u2 | u4 | u8          -- 1/2/4/8-byte unsigned constant
   | s1 | s2 | s4 | s8          -- 1/2/4/8-byte signed constant
   | addr                       -- target address: address_size bytes
-  | off                        -- section offset: 4 bytes in 32-bit DWARF, 8 in 64-bit DWARF
+  | off                        -- reference to an entry of .debug_info, sized like DW_FORM_ref_addr (`refSize`)
   | uleb | sleb
   | block | block1 | expr | wasm
   deriving DecidableEq, Repr
@@ -100,12 +100,21 @@ def opRow? (op : Nat) : Option (String × List AKind) := opRows.lookup op
 def opName? (op : Nat) : Option String := (opRow? op).map (·.1)
 def opSigAbs (op : Nat) : Option (List AKind) := (opRow? op).map (·.2)
 
+/-- width of the reference operand of DW_OP_call_ref / DW_OP_implicit_pointer / DW_OP_GNU_implicit_pointer: "a 4-byte
+    unsigned value in the 32-bit DWARF format, or an 8-byte unsigned value in the 64-bit DWARF format" (DWARF 3–5
+    §2.5.1.5, DWARF 5 §2.6.1.1.4) — the encoding of DW_FORM_ref_addr, which in DWARF 2 (§7.5.4) is the size of an
+    ADDRESS.  The GNU extension is defined that way ("DW_OP_GNU_implicit_pointer … the first operand … in DWARF
+    version 2 has the size of an address, in later versions the size of an offset"; GCC `DWARF_REF_SIZE`), and so do
+    binutils (`dwarf_version == 2 ? pointer_size : offset_size`) and LLVM (`SizeRefAddr`) read all three operations.
+    `gcc -O2 -gdwarf-2` on a 64-bit target emits DW_OP_GNU_implicit_pointer with an 8-byte reference in 32-bit DWARF. -/
+def refSize (c : DwarfCfg) : Nat := if c.ver = 2 then c.asz else c.fmt / 8
+
 /-- fix the unit-dependent widths and the byte order -/
 def resolve (c : DwarfCfg) : AKind → ArgKind
   | .u1 => .u 1 c.le | .u2 => .u 2 c.le | .u4 => .u 4 c.le | .u8 => .u 8 c.le
   | .s1 => .s 1 c.le | .s2 => .s 2 c.le | .s4 => .s 4 c.le | .s8 => .s 8 c.le
   | .addr => .u c.asz c.le
-  | .off => .u (c.fmt / 8) c.le
+  | .off => .u (refSize c) c.le
   | .uleb => .uleb | .sleb => .sleb | .block => .block | .block1 => .block1 | .expr => .expr
   | .wasm => .wasm c.le
 
